@@ -32,6 +32,30 @@ def ybytes(b):
     return out + '"'
 
 
+def y_float(x):
+    """A non-negative finite binary64 as the YARA literal `digits.digits` (its exact decimal expansion, which
+    `str::parse::<f64>` reads back to the same value)."""
+    import decimal
+    assert x >= 0 and x == x and x != float("inf")
+    t = format(decimal.Decimal(x), "f")
+    return t if "." in t else t + ".0"
+
+
+def g_float(x):
+    """The same binary64 as a Coq.Floats.SpecFloat.spec_float in canonical form."""
+    import struct
+    bits = struct.unpack(">Q", struct.pack(">d", x))[0]
+    sg, ef, mf = bits >> 63, (bits >> 52) & 0x7ff, bits & ((1 << 52) - 1)
+    sb = "true" if sg else "false"
+    if ef == 0x7ff:
+        return "SpecFloat.S754_nan" if mf else "(SpecFloat.S754_infinity %s)" % sb
+    if ef == 0 and mf == 0:
+        return "(SpecFloat.S754_zero %s)" % sb
+    if ef == 0:
+        return "(SpecFloat.S754_finite %s %d (-1074))" % (sb, mf)
+    return "(SpecFloat.S754_finite %s %d (%d))" % (sb, mf | (1 << 52), ef - 1075)
+
+
 class Printer:
     """names: list of string identifiers (without $) indexed by variable index; idents: bound identifier names."""
 
@@ -83,6 +107,8 @@ class Printer:
             return "%d" % e[1]
         if t == "bytes":
             return ybytes(e[1])
+        if t == "float":
+            return y_float(e[1])
         if t == "bool":
             return "true" if e[1] else "false"
         if t == "filesize":
@@ -166,6 +192,8 @@ class Printer:
             return "(EInt %s)" % gZ(e[1])
         if t == "bytes":
             return "(EBytes %s)" % gbytes(e[1])
+        if t == "float":
+            return "(EDouble %s)" % g_float(e[1])
         if t == "bool":
             return "(EBool %s)" % gbool(e[1])
         if t == "filesize":
@@ -248,6 +276,44 @@ class Gen:
         self.r, self.nvars, self.mem_len, self.exts, self.max_depth = rng, nvars, mem_len, list(exts), max_depth
         self.allow_for = allow_for
         self.of_at_in = of_at_in      # `N of (set) at X` / `N of (set) in (A..B)`
+        self.floats = False           # float literals and mixed integer / float arithmetic and comparisons
+
+    FLOATS = [0.0, 0.5, 1.0, 1.5, 2.0, 2.5, 3.0, 0.1, 0.2, 0.30000000000000004, 100.0, 255.0, 1e-9, 2.220446049250313e-16,
+              2.2e-16, 4503599627370496.0, 9007199254740992.0, 9007199254740993.0, 9.223372036854775807e18, 1e300,
+              1.7976931348623157e308, 5e-324, 2.5e-320]
+
+    def gfloat(self, d, in_for=False, nid=0):
+        """A float-typed expression (at least one float operand somewhere)."""
+        r = self.r
+        if d <= 0 or r.chance(1, 3):
+            return ("float", r.choice(self.FLOATS))
+        c = r.below(8)
+        if c == 0:
+            return ("un", "neg", self.gfloat(d - 1, in_for, nid))
+        op = r.choice(["add", "sub", "mul", "div", "add", "sub"])
+        a = self.gfloat(d - 1, in_for, nid)
+        b = self.gint(d - 1, in_for, nid) if r.chance(1, 2) else self.gfloat(d - 1, in_for, nid)
+        if r.chance(1, 2):
+            a, b = b, a
+        return ("bin", op, a, b)
+
+    def gfloat_bool(self, d, in_for=False, nid=0):
+        r = self.r
+        a = self.gfloat(d, in_for, nid)
+        b = r.choice([self.gfloat, self.gint, self.gint])(d, in_for, nid)
+        if r.chance(1, 8):
+            b = a
+        if r.chance(1, 2):
+            a, b = b, a
+        k = r.below(10)
+        if k == 0:
+            return ("defined", ("bin", r.choice(["add", "div", "mul"]), a, b))
+        if k == 1:
+            # a float as a truth value: `x != 0.0`
+            return (r.choice(["and", "or"]), [("bin", "sub", a, b), ("bool", r.chance(1, 2))])
+        if k == 2:
+            return ("un", "not", ("bin", "sub", a, b))
+        return ("bin", r.choice(list(BIN_CMP)), a, b)
 
     def var(self, in_for):
         if in_for and self.r.chance(1, 2):
@@ -340,6 +406,8 @@ class Gen:
             if c == 6:
                 return ("varin", self.var(in_for), self.small(), self.small())
             return ("defined", self.gint(0, in_for, nid))
+        if self.floats and r.chance(1, 12):
+            return self.gfloat_bool(min(d, 2), in_for, nid)
         c = r.below(22)
         if c < 3:
             return ("and", [self.gbool(d - 1, in_for, nid) for _ in range(r.range(2, 4))])
